@@ -368,13 +368,13 @@ def memento_run_local(
 
             # If an exception occurred, raise it instead of returning the result
             if exception_result is not None:
+                # (formatted lazily by the logger: str() of a user exception may itself raise)
                 log.debug(
-                    "{}: Result was computed, {} and is an exception: {}: {}".format(
-                        correlation_id,
-                        memoization_status,
-                        type(exception_result).__name__,
-                        exception_result,
-                    )
+                    "%s: Result was computed, %s and is an exception: %s: %s",
+                    correlation_id,
+                    memoization_status,
+                    type(exception_result).__name__,
+                    exception_result,
                 )
                 return exception_result
 
